@@ -108,6 +108,10 @@ def ex_case(ctx, case, test="L", num_sim=5, seed=1, inject=False, layout="C", sc
         if "result" not in entry:
             continue
         simw = entry["result"].reshape(shape)
+        if float(simw.sum()) != float(entry["n"]):
+            ctx.violate("simulated catalog j does not hold the number of events that was prescribed for it", rc,
+                        observed={"j": j, "events": float(simw.sum())}, expected=entry["n"], tags=dict(tags, clause="sim-count", prescribed_zero=entry["n"] == 0))
+            break
         rj, sj = gridcases.poisson_ll(lam, simw)
         ctx.mon("trace:test_distribution[j]~simulated_catalog[j]", 1)
         v = float(val)
@@ -151,6 +155,14 @@ def run(ctx):
             ctx.sample({"cells": case["nx"] * case["ny"], "mags": case["nmag"], "n_events": len(case["ev_cell"]),
                         "rates_first_row": case["rates"][0][:4], "total_rate": float(numpy.sum(case["rates"])),
                         "zero_bins": int((numpy.array(case["rates"]) == 0).sum()), "layout": layout, "scale": scale, "tests": TESTS})
+    # low-rate forecasts: the L-test's Poisson draw is often 0 (empty simulated catalogs between non-empty ones)
+    for j in range((2000 if thorough else 80) // ctx.nshards):
+        r = ctx.rng("c05low", j)
+        case = gridcases.gen_case(r, max_cells=12, max_mag=3, max_events=6, zero_frac=0.0, events_in_zero=False)
+        rates = numpy.array(case["rates"])
+        case["rates"] = (rates / rates.sum() * float(r.uniform(0.3, 2.5))).tolist()
+        ex_case(ctx, case, "L", num_sim=int(r.choice([8, 20])), seed=j)
+        ex_case(ctx, case, "S", num_sim=3, seed=j)
     # tiny-rate bins holding events (rates down to 1e-12 are in the domain)
     for j in range((4000 if thorough else 200) // ctx.nshards):
         r = ctx.rng("c05tiny", j)
